@@ -121,8 +121,14 @@ impl Relation for ZkirRelation {
             })
         };
 
+        // Jubjub values may also enter the program as constants.
+        let involves_jubjub_constants = self.program.instructions.iter().any(|instr| {
+            instr.inputs.iter().any(|name| name.starts_with("Jubjub:") || name.starts_with("JubjubScalar:"))
+        });
+
         ZkStdLibArch {
-            jubjub: involves_types(&[IrType::JubjubPoint, IrType::JubjubScalar]),
+            jubjub: involves_types(&[IrType::JubjubPoint, IrType::JubjubScalar])
+                || involves_jubjub_constants,
             poseidon: operations.iter().any(|op| matches!(op, Poseidon)),
             sha2_256: operations.iter().any(|op| matches!(op, Sha256)),
             sha2_512: operations.iter().any(|op| matches!(op, Sha512)),
